@@ -22,6 +22,9 @@ CLAIMS = {
     'C09': dict(
         text="Decides the structural core for all models, symbols and histories: in every encoder-side model (6 impls + Huffman) the predicates that separate rejecting from accepting paths mention the symbol outside any possibly-narrowing conversion (or under a dominating guard on the un-narrowed symbol); in each of the three Encode::encode_symbol impls the Continue edge of the model-lookup `?` precedes the first mutation of the coder on every path and every rejecting exit is mutation-free; ANS: no assignment to the coder precedes the fallible backend write; Huffman rejects before emitting and the default adaptors buffer first. Not decided: that each model's None set equals the complement of its support (value level).",
         tech="information-flow (narrowing taint) over the value graph + path ordering / must-precede rules over extracted MIR"),
+    'C01': dict(
+        text="Decides that every batch / fallible / iid / reverse form of the stream-code traits is, by construction, the per-symbol loop the property quantifies over (no impl overrides a provided batch method; each provided body makes exactly one encode_symbol/decode_symbol call per yielded item with the item's components, propagates its error and touches the coder in no other way; DecodeIidSymbols yields exactly amt items), that every conversion of an AnsCoder copies `state` unchanged, that only the coding steps, clear() and seek() assign `state`, and that Clone is derived. The core statement - encode_symbol and decode_symbol are algebraic inverses, export/import is the identity - is value-level and NOT decided: a changed threshold or state update is not detected by this check.",
+        tech="override inventory over impl tables; loop-summarised structural rules on provided trait bodies and closures; literal-site / field-writer inventory (who-may-write)"),
 }
 
 NA = {
